@@ -76,8 +76,8 @@ type Env struct {
 	AbPort   int
 	SinkURL  string
 
-	nmu    sync.Mutex
-	notifs []Notif
+	nmu        sync.Mutex
+	notifs     []Notif
 	sinkStatus int
 }
 
